@@ -25,6 +25,7 @@ def run(ctx, rep):
     rep.assume("model conformance of each list/map operation and aliasing over histories are not decided")
     _builtins.run(F, rep, "C13.builtin", "list+map")
     list_equality(F, rep)
+    value_equality(F, rep)
     if _casts is not None:
         _casts.run_c13(F, rep)
 
@@ -68,3 +69,46 @@ def list_equality(F, rep):
                    "zip stops at the shorter sequence: without a length comparison a list equals / matches every list it is a prefix of", c.span, fn=f.path,
                    key="C13.list-equality|zip|%s" % mir.short(f.path))
     rep.extra["zip_sites_in_interpreter"] = n
+
+
+VALUE_TYPES = ("bytecode::variables::primitive::Primitive", "bytecode::stack::PrimitiveFlagsPair", "bytecode::variables::primitive::HeapPrimitive")
+# the equality implementation itself: the only code that may compare program values structurally
+EQUALITY_IMPL = ("bytecode::variables::primitive::Primitive::equals", "bytecode::variables::primitive::Primitive::runtime_addr_check")
+
+
+def value_equality(F, rep):
+    """Language-level equality of values is Primitive::equals (numeric kinds compare by value, T? looks through a present optional).
+    Rust's structural `==` on a Primitive (derived PartialEq: Int(7) != BigInt(7), Optional(Some(7)) != Int(7)) may be used only inside the
+    equality implementation and the PartialEq/Ord impls; a built-in or handler that searches or compares with `==` answers differently
+    from the program's own `==` (index_of, contains, write-if-changed ...)."""
+    n = 0
+    allowed = 0
+    for f in F.crates["bytecode"].fns:
+        for c in f.calls():
+            fu = c.t["func"]
+            if (fu.get("def") or "") not in ("core::cmp::PartialEq::eq", "core::cmp::PartialEq::ne"):
+                continue
+            ga = " ".join(fu.get("ga") or []) + " " + (fu.get("res") or "")
+            if not any(v in ga for v in VALUE_TYPES):
+                continue
+            n += 1
+            owner = f.path
+            sh = mir.short(owner)
+            in_impl = (" as PartialEq>::" in sh or " as Ord>::" in sh or " as PartialOrd>::" in sh
+                       or any(owner == e or owner.startswith(e + "::{closure") for e in EQUALITY_IMPL))
+            if in_impl:
+                allowed += 1
+                continue
+            rep.ob("C13.value-equality", "%s compares program values with Rust's structural == instead of Primitive::equals" % mir.short(f.path), "violated",
+                   "structural equality distinguishes int/bigint/byte/float of equal value and a boxed optional from its content; the language's == does not",
+                   c.span, fn=f.path, key="C13.value-equality|%s" % mir.short(f.path))
+    rep.ob("C13.value-equality", "structural == on program values occurs only inside the equality implementation (%d sites)" % allowed,
+           "ok" if allowed == n else "violated", "", None, key="C13.value-equality|summary")
+    rep.floor("C13.value-equality structural comparisons inside the equality implementation", allowed, 8)
+    # searching built-ins use Primitive::equals
+    run = F.fn("bytecode::function::BuiltInFunction::run")
+    if run is None:
+        raise AnchorMissing("BuiltInFunction::run")
+    users = [g for g in [run] + F.closures_of(run) if g.calls_to("bytecode::variables::primitive::Primitive::equals")]
+    rep.ob("C13.value-equality", "list.index_of compares elements with Primitive::equals", "ok" if users else "violated",
+           "no built-in calls Primitive::equals any more", run.span, fn=run.path, key="C13.value-equality|index_of-uses-equals")
